@@ -967,15 +967,25 @@ impl OutstationSession {
         match guard.get() {
             Some(TransportRequest::Request(info, request)) => {
                 self.on_link_activity();
+                // a repeated non-READ request is answered with the response sent before, unchanged
+                let repeat = matches!(
+                    self.classify(info, request),
+                    FragmentType::RepeatNonRead(_, _)
+                );
                 if let Some(mut result) = self
                     .process_request_from_idle(info, request, database)
                     .await
                 {
                     // optional response
                     if let Some(response) = &mut result.response {
-                        *response = self
-                            .write_solicited(io, writer, info.addr, *response, database)
-                            .await?;
+                        if repeat {
+                            self.repeat_solicited(io, info.addr, writer, *response)
+                                .await?;
+                        } else {
+                            *response = self
+                                .write_solicited(io, writer, info.addr, *response, database)
+                                .await?;
+                        }
 
                         // check if an extra confirmation was added due to broadcast
                         if response.header.control.con && result.series.is_none() {
